@@ -121,6 +121,13 @@ func (m *UnsubscribeMessage) Decode(src []byte) (int, error) {
 		return total, err
 	}
 
+	// Only the bytes of this message are decoded
+	src = m.dbuf
+
+	if m.remlen < 2 {
+		return total, fmt.Errorf("unsubscribe/Decode: Insufficient remaining length %d. Expecting at least %d", m.remlen, 2)
+	}
+
 	//this.packetId = binary.BigEndian.Uint16(src[total:])
 	m.packetID = src[total : total+2]
 	total += 2
